@@ -1,5 +1,6 @@
 pub mod client_codec;
 pub mod client_sm;
+pub mod decode;
 pub mod framing;
 pub mod server_family;
 
@@ -19,6 +20,7 @@ pub fn run(id: &str, tier: &str) -> i32 {
         "C13" => client_sm::check_c13(tier),
         "C14" => client_sm::check_c14(tier),
         "C17" => server_family::check_c17(tier),
+        "C20" => decode::check_c20(tier),
         _ => {
             eprintln!("unknown or unimplemented property {id}");
             2
@@ -57,6 +59,7 @@ pub fn replay(path: &str) -> i32 {
         Some("c07-server") | Some("c07-client") => framing::replay_c07(scn),
         Some("client-sm-wrap") => client_sm::replay_wrap(),
         Some("c14-pure") => client_sm::replay_c14_pure(scn),
+        Some("c20-client") | Some("c20-server") | Some("c20-stream") => decode::replay_c20(scn),
         Some("client-sm") => client_sm::replay(scn),
         Some("client-stream") => framing::replay_client_stream(scn),
         k => {
